@@ -327,7 +327,8 @@ func (x *Exec) intrinsicNamed(fn *ssa.Function, path, name string, args []Value)
 		x.stubsHit["fortio.org/log.* (no effect)"] = true
 		switch fn.Name() {
 		case "GetLogLevel":
-			return Int{W: 32, Signed: true, C: 2}, true // Info
+			w, sg, _ := intInfo(fn.Signature.Results().At(0).Type())
+			return Int{W: w, Signed: sg, C: 2}, true // Info
 		case "Log":
 			return Bool{C: false}, true
 		}
@@ -459,7 +460,16 @@ func (x *Exec) intrinsicNamed(fn *ssa.Function, path, name string, args []Value)
 		unsupported("%s", name)
 	case "strings.Repeat":
 		s := args[0].(Str)
-		c := int(x.concretize(args[1].(Int), "repeat count", 64))
+		if ci := args[1].(Int); ci.S != nil {
+			tt := x.tt
+			if x.branch(tt.Cmp(OpSlt, ci.S, tt.Const(64, 0))) {
+				panic(goPanic{msg: "strings: negative Repeat count", val: Iface{T: types.Typ[types.String], V: Str{S: "strings: negative Repeat count"}}, site: "strings.Repeat"})
+			}
+			if s.Len() > 0 && x.branch(tt.Cmp(OpSlt, tt.Const(64, uint64((1<<62)/s.Len())), ci.S)) {
+				panic(goPanic{msg: "strings: Repeat output length overflow", val: Iface{T: types.Typ[types.String], V: Str{S: "strings: Repeat output length overflow"}}, site: "strings.Repeat"})
+			}
+		}
+		c := int(x.concretizeSmall(args[1].(Int), "repeat count", 9))
 		if c < 0 {
 			panic(goPanic{msg: "strings: negative Repeat count", val: Iface{T: types.Typ[types.String], V: Str{S: "strings: negative Repeat count"}}, site: "strings.Repeat"})
 		}
@@ -514,8 +524,18 @@ func (x *Exec) intrinsicNamed(fn *ssa.Function, path, name string, args []Value)
 		}
 		return x.parseFloatSym(s), true
 	case "strconv.Quote":
-		if s := args[0].(Str); s.Sym == nil {
+		s := args[0].(Str)
+		if s.Sym == nil {
 			return Str{S: strconv.Quote(s.S)}, true
+		}
+		if x.atoms && !s.HasAtom() {
+			// one opaque segment standing for the quoted text of these bytes (no forking over Quote's
+			// printable/UTF-8 case analysis); C02/C14 switch atoms off and run strconv.Quote itself
+			ts := make([]*Term, len(s.Sym))
+			for i, b := range s.Sym {
+				ts[i] = x.term(b)
+			}
+			return Str{Sym: []Int{{W: 8, S: x.tt.UF(fmt.Sprintf("quote%d", len(ts)), 64, ts...), Atom: atomQuo}}}, true
 		}
 	case "fmt.Sprintf":
 		return x.format(concStr(args[0]), args[1].(Slice).Data), true
